@@ -61,11 +61,15 @@ def is_scalar(t):
 
 @register_qbytestensor_op([torch.ops.aten._to_copy, torch.ops.aten.to])
 def _to_copy(op, t, dtype=None, **kwargs):
+    if dtype is not None and not dtype.is_floating_point:
+        # The scale cannot be converted to an integer type: convert the dequantized values
+        return op(t.dequantize(), dtype=dtype, **kwargs)
     # For data, ignore dtype and use the inner type instead
     out_data = op(t._data, dtype=t._data.dtype, **kwargs)
-    # Apply the new dtype on the scale only
-    out_scale = op(t._scale, dtype=dtype, **kwargs)
-    return QBytesTensor(t.qtype, t.axis, t.size(), t.stride(), out_data, out_scale)
+    # Apply the new dtype on the scale only (its memory format is irrelevant, and a scalar cannot be in a 4D format)
+    scale_kwargs = {k: v for k, v in kwargs.items() if k != "memory_format"}
+    out_scale = op(t._scale, dtype=dtype, **scale_kwargs)
+    return QBytesTensor(t.qtype, t.axis, t.size(), out_data.stride(), out_data, out_scale)
 
 
 @register_qbytestensor_op([torch.ops.aten.detach])
@@ -119,7 +123,8 @@ def clone(op, t, memory_format=torch.preserve_format):
     out_data = op(t._data, memory_format=memory_format)
     out_stride = out_data.stride()
     out_data = out_data.reshape(data_shape)
-    out_scale = op(t._scale, memory_format=memory_format)
+    # The memory format only applies to the data (a scalar scale cannot be in a 4D format)
+    out_scale = op(t._scale)
     return QBytesTensor(t.qtype, t.axis, t.size(), out_stride, out_data, out_scale)
 
 
